@@ -66,6 +66,8 @@ func (st *State) assume(phi string) {
 	c := st.c
 	n := c.freshConst("pc", "Bool")
 	c.asserts = append(c.asserts, fmt.Sprintf("(assert (=> %s (and %s %s)))", n, st.pc, phi))
+	c.pcParent[n] = st.pc
+	c.pcPhi[n] = phi
 	st.pc = n
 }
 
